@@ -1,5 +1,40 @@
 """C12 — see DESIGN.md section 6."""
 from kv_engine import *
+import fmt_engine
+
+
+def image_stage(ctx, cov):
+    """the clock floor after a crash recovery: devices holding two generations of a key (what a crash between a
+    replacement's commit and the old extent's retirement leaves) are recovered; every indexed key's clock shard
+    must stand at or above the key's timestamp, and an automatic write right after the open must not be refused"""
+    ok, out = cargo_build(ctx, ["fmt"])
+    if not ok:
+        return
+    outs = fmt_engine.run_fmt(ctx, ["dupgen"], 6, ["workloads=%d" % (4 if ctx.tier == "quick" else 60), "mutations=8"])
+    kinds = fmt_engine.merge_hist(outs)
+    bad = 0
+    for o in outs:
+        if "crash" in o:
+            violation(ctx, "fmt harness (multi-generation images) did not finish: " + o["crash"], o["crash"], tag="crash")
+            continue
+        for l in read_lines(os.path.join(o["dir"], "fmt.oracle")):
+            if not l.startswith("clockfloor"):
+                continue
+            bad += 1
+            if bad <= 2:
+                toks = []
+                for t in l.split(" "):
+                    if t.startswith("/dev/shm/") and os.path.exists(t):
+                        dst = os.path.join(VERIF, "replay", "%s_clockfloor%d_%s" % (ctx.prop, bad, os.path.basename(t)))
+                        import shutil
+                        shutil.copyfile(t, dst)
+                        t = dst
+                    toks.append(t)
+                violation(ctx, "version clock after recovery: " + " ".join(toks)[:400], "# %s\n" % " ".join(toks), tag="clockfloor")
+    n = kinds.get("clock-floor-checked", 0)
+    ctx.log("image stage: %d recovered multi-generation devices checked for the clock floor, %d violations" % (n, bad))
+    cov["clock_floor_images"] = n
+    cov["clock_floor_violations"] = bad
 
 MODULE = "Feox.Props.C12"
 THEOREMS = ['Feox.C12.next_strict', 'Feox.C12.observe_ge', 'Feox.C12.auto_insert_never_older', 'Feox.C12.auto_delete_never_older', 'Feox.C12.auto_cas_never_older', 'Feox.C12.update_ttl_strict', 'Feox.C12.failed_explicit_insert_not_absorbed', 'Feox.C12.failed_explicit_delete_not_absorbed', 'Feox.C12.accepted_explicit_insert_observed', 'Feox.C12.reopen_clock_dominates']
@@ -10,4 +45,5 @@ def run(ctx):
         "the reference map is Lean Feox.Kv.Spec; its agreement with the real store is differential testing over the generated sequences",
         "json-patch/serde_json results, the wall clock and the key->clock-shard hash are inputs of the model (recorded per call by the harness)",
         "disk reads are assumed faithful here (C05/C10 cover the bytes); concurrency is outside this engine (Conc engine)",
-    ])
+        "restart side on crash images: devices with two generations of a key (forged by copying a real record with another timestamp) are recovered and the clock floor of every key's shard is read through the hooks (reopen_clock_dominates is the model-side statement)",
+    ], pre_finish=image_stage)
